@@ -205,6 +205,44 @@ var Presets = map[string]*Config{
 			OpaqueErrors: true,
 		}
 	}(),
+	// the standard library's internal/filepathlite (path.go + path_unix.go + path_nonwindows.go: filepath.Clean on Unix).
+	// `lazybuf` is threaded through `append`; `index` and `string` never assign to their receiver (Config.ReadOnlyRecv);
+	// the field `buf` is compared with nil (Option Bytes).  Clean#1 is the main loop (every iteration reads at least one
+	// byte), Clean#2 the backtracking loop (out.w goes down), Clean#3 the element copy, Dir#1 the backward scan for the last separator.
+	"filepath": func() *Config {
+		lib := map[string]LibFn{
+			"stringslite.HasPrefix": {Lean: "GoLib.hasPrefix", Ret: TBool},
+			"stringslite.IndexByte": {Lean: "GoLib.indexByte", Ret: TInt},
+		}
+		return &Config{Lib: lib, Globals: map[string]Global{},
+			Structs: map[string]*Struct{
+				"lazybuf": {Lean: "GoLazybuf", Fields: []Field{{"path", "path", TStr}, {"buf", "buf", &Type{K: KNil, Elem: TBytes}},
+					{"w", "w", TInt}, {"volAndPath", "volAndPath", TStr}, {"volLen", "volLen", TInt}}},
+			},
+			Fuel:         map[string]string{"Clean#1": "path.length + 1", "Clean#2": "path.length + 1", "Clean#3": "path.length + 1", "Dir#1": "path.length + 1"},
+			Threaded:     map[string]bool{"lazybuf": true},
+			ReadOnlyRecv: true,
+			Rename:       map[string]string{"index": "lazybuf_index", "append": "lazybuf_append", "string": "lazybuf_string"},
+		}
+	}(),
+	// txtar/archive.go, func isAbs: filepath.IsAbs is the translated GIV.Go.Filepath.IsAbs (GIV/Gen/FilepathGo.lean),
+	// filepath.Separator the Unix constant '/'
+	"txtarabs": func() *Config {
+		lib := bytesLib()
+		lib["filepath.IsAbs"] = LibFn{Lean: "GIV.Go.Filepath.IsAbs", Ret: TBool, Option: true}
+		return &Config{Lib: lib, Globals: map[string]Global{"filepath.Separator": {Lean: "47", T: TInt}},
+			Structs: map[string]*Struct{}, Fuel: map[string]string{}}
+	}(),
+	// path/filepath/path_unix.go, func join (filepath.Join(elem...) is join(elem)): Clean is the translated
+	// GIV.Go.Filepath.Clean (filepath.Clean is filepathlite.Clean), strings.Join(·, string(Separator)) — only with this
+	// separator argument, Separator = os.PathSeparator = '/' on Unix — is the model's joinSep (library meaning)
+	"filepathjoin": func() *Config {
+		lib := map[string]LibFn{
+			"Clean":        {Lean: "GIV.Go.Filepath.Clean", Ret: TStr, Option: true},
+			"strings.Join": {Lean: "GIV.Fsx.joinSep", Ret: TStr, FixedArgs: []string{"", "string(Separator)"}},
+		}
+		return &Config{Lib: lib, Globals: map[string]Global{"Separator": {Lean: "47", T: TInt}}, Structs: map[string]*Struct{}, Fuel: map[string]string{}}
+	}(),
 	"proxy": func() *Config {
 		return &Config{Lib: bytesLib(), Globals: map[string]Global{}, Structs: map[string]*Struct{}, Fuel: map[string]string{}}
 	}(),
